@@ -913,6 +913,18 @@ Section LinkedList.
       + rewrite map_app, <- app_assoc. reflexivity.
       + apply chain_upd; auto. lia.
   Qed.
+
+  Lemma drain_all_spec L : forall nxt sums head acc,
+    NoDup L -> Forall (fun k => 0 <= k < N) L -> chain nxt head L ->
+    map fst (drain_all (length L) nxt sums head acc) = map fst acc ++ L.
+  Proof.
+    induction L as [|k L' IH]; intros nxt sums head acc Hnd Hr Hc; simpl.
+    - rewrite app_nil_r. reflexivity.
+    - destruct Hc as [-> Hc]. inversion Hnd as [|? ? Hn Hnd']; subst. inversion Hr as [|? ? Hk Hr']; subst.
+      rewrite IH; auto.
+      + rewrite map_app, <- app_assoc. reflexivity.
+      + apply chain_upd; auto. lia.
+  Qed.
 End LinkedList.
 
 Lemma In_firstn {A} n (l : list A) x : In x (firstn n l) -> In x l.
@@ -964,4 +976,44 @@ Theorem csr_csr_row_sorted (a b : gcxs Z) (n_col i : Z) :
 Proof.
   intros Hn Hb. unfold csr_csr_row. apply schema_RowsSortedByKernel.
   apply csr_csr_row_raw_NoDup; assumption.
+Qed.
+
+(* ------------------------------------------------------------------ csc @ ndarray (sparse result) *)
+
+Lemma csc_nd_col_raw_NoDup (a : gcxs Z) (n_rows : Z) (bcol : list Z) :
+  0 <= n_rows -> Forall (fun k => 0 <= k < n_rows) (g_indices a) ->
+  NoDup (map fst (csc_nd_col_raw n_rows a bcol)).
+Proof.
+  intros Hn Ha. unfold csc_nd_col_raw.
+  set (l := combine _ bcol).
+  set (init := (repeat (-1) (Z.to_nat n_rows), repeat 0 (Z.to_nat n_rows), -2, 0) : ll_state).
+  assert (Hinit : ll_inv n_rows init []).
+  { unfold ll_inv, init. rewrite repeat_length. repeat split; try constructor; lia. }
+  assert (G : forall l st L, ll_inv n_rows st L ->
+     exists L', ll_inv n_rows
+       (fold_left (fun st (ju : Z * Z) =>
+          let '(j, u) := ju in
+          if u =? 0 then st
+          else fold_left (fun st (kv : Z * Z) => touch st (fst kv) (u * snd kv))
+                 (combine (row_slice (g_indices a) (g_indptr a) j) (row_slice (g_data a) (g_indptr a) j)) st) l st) L').
+  { clear l. induction l as [|[j u] r IH]; intros st L Hi; simpl; [exists L; assumption|].
+    destruct (u =? 0); [eapply IH; exact Hi|].
+    destruct (touches_inv n_rows (fun kv : Z * Z => fst kv) (fun kv => u * snd kv)
+                (combine (row_slice (g_indices a) (g_indptr a) j) (row_slice (g_data a) (g_indptr a) j)) st L) as [L1 H1]; auto.
+    - apply Forall_forall. intros [k v] Hin. apply in_combine_l in Hin. unfold row_slice in Hin.
+      apply In_slice_list in Hin. rewrite Forall_forall in Ha. simpl. auto.
+    - eapply IH. exact H1. }
+  destruct (G l init [] Hinit) as [L HL].
+  destruct (fold_left _ l init) as [[[nxt sums] head] len].
+  destruct HL as [Hl [Hnd [Hr [Hc Hlen]]]]. subst len. rewrite Nat2Z.id.
+  rewrite (drain_all_spec n_rows L nxt sums head [] Hnd Hr Hc). simpl. assumption.
+Qed.
+
+(* the columns csc @ ndarray stores have strictly increasing row indices *)
+Theorem csc_nd_col_sorted (a : gcxs Z) (n_rows : Z) (bcol : list Z) :
+  0 <= n_rows -> Forall (fun k => 0 <= k < n_rows) (g_indices a) ->
+  strictly_increasing (map fst (csc_nd_col n_rows a bcol)) = true.
+Proof.
+  intros Hn Ha. unfold csc_nd_col. apply schema_RowsSortedByKernel.
+  apply csc_nd_col_raw_NoDup; assumption.
 Qed.
